@@ -59,7 +59,7 @@ void h_iter(void)
 void h_check_samples(void)
 {
     IN_LONG_IN(N, 1, 16);
-    IN_LONG_IN(n, 1, 4);
+    IN_LONG_IN(n, 0, 4); /* the empty list is a list too: nothing to reject, nothing to read */
     IN_ARR_LONG(idx, 4, -3, 19);
     int bad = 0;
     for (int i = 0; i < 4; ++i) if (i < n && (idx[i] < 0 || idx[i] >= N)) bad = 1;
